@@ -7,6 +7,7 @@ mod store;
 mod refpb;
 mod rng;
 mod sim;
+mod simraw;
 mod simrun;
 mod sink;
 mod streams {
@@ -91,6 +92,7 @@ fn main() {
             let rs: u64 = arg(&args, "--runseed", 0);
             simrun::sim_stream(seed, if rs != 0 { 1 } else { cases }, cfg, &out, stream, if rs != 0 { Some(rs) } else { None })
         }
+        "simraw" => simraw::raw_stream(seed, cases, &out, stream),
         "node" => streams::node::node_stream(seed, cases, streams::node::Cfg { keys: arg(&args, "--keys", 5), peers: arg(&args, "--peers", 3), ops: arg(&args, "--ops", 80), big_wantlists: false }),
         "nodebig" => streams::node::node_stream(seed, cases, streams::node::Cfg { keys: 3100, peers: 2, ops: arg(&args, "--ops", 30), big_wantlists: true }),
         _ => {
